@@ -51,7 +51,7 @@ func TestVerifC17b(t *testing.T) {
 	r.Bound("stop_offsets_after_handler_return", fmt.Sprint(offsets))
 	var ord int64
 	for _, first := range c17bResults() {
-		for _, mode := range []string{"in-delay", "in-handler", "empty-queue"} {
+		for _, mode := range []string{"in-delay", "in-handler", "empty-queue", "idle+arrival"} {
 			for _, off := range offsets {
 				if mode == "in-delay" && (first.delay == 0 || off >= first.delay) {
 					continue // the stop must land strictly inside the delay
@@ -83,7 +83,7 @@ func TestVerifC17b(t *testing.T) {
 					defer cancel()
 					q.WithContext(ctx)
 					ntasks := 3
-					if mode == "empty-queue" {
+					if mode == "empty-queue" || mode == "idle+arrival" {
 						ntasks = 1
 					}
 					vrt.Atomic(func() {
@@ -115,7 +115,7 @@ func TestVerifC17b(t *testing.T) {
 							}
 							obs.handlerEndAt = x.Now()
 							firstDone = true
-							if mode == "empty-queue" {
+							if mode == "empty-queue" || mode == "idle+arrival" {
 								return TaskResult{Status: Success}
 							}
 							return first.res()
@@ -131,6 +131,16 @@ func TestVerifC17b(t *testing.T) {
 						}
 						obs.stopAt = x.Now()
 						obs.stopStep = x.Steps
+						if mode == "idle+arrival" {
+							// a task arrives and the stop is requested at the same instant, while the worker of
+							// the idle queue is blocked in its wait loop: it had picked nothing
+							vrt.Atomic(func() {
+								q.AddLast(c05task("late", 99))
+								stopRequested = true
+								q.Stop()
+							})
+							return
+						}
 						stopRequested = true
 						q.Stop()
 					})
@@ -142,7 +152,7 @@ func TestVerifC17b(t *testing.T) {
 					// nothing may happen afterwards either
 					vrt.WaitFor("tail", 10*time.Second, func() bool { return false })
 				}
-				ex := &vrt.Explorer{Opts: vrt.Options{Bound: bound, MaxSteps: 50000, DelayBound: true}, Deadline: r.Deadline()}
+				ex := &vrt.Explorer{Opts: vrt.Options{Bound: bound, MaxSteps: 50000, DelayBound: true, SelectDev: true}, Deadline: r.Deadline()}
 				ex.Check = func(x *vrt.Exec) {
 					key := fmt.Sprintf("%s|%v", name, x.Choices)
 					r.Eval(1)
